@@ -286,11 +286,58 @@ def match_known(known, prop, fail):
     return None
 
 
+def replay_main(args):
+    """./check --replay <replay file>: show the failed obligation recorded in the file, run its registered demonstration on the
+    real code (if any) and re-verify the obligation on /repo's current tree.  Exit 1 if it still fails (or the demonstration
+    fails), 0 if it is discharged now, 2 if it cannot be decided."""
+    if not args or not os.path.exists(args[0]):
+        print("usage: check --replay <path to a replay file>")
+        return 2
+    doc = json.load(open(args[0]))
+    print("property   : %s" % doc.get("property"))
+    print("obligation : %s" % doc.get("obligation"))
+    print("function   : %s  (%s:%s)" % (doc.get("function"), doc.get("repo_file"), doc.get("repo_line")))
+    print("verifier   : %s" % doc.get("verifier_message"))
+    if doc.get("repo_site"):
+        print("site       : %s" % json.dumps(doc["repo_site"]))
+    print("note       : %s" % doc.get("note"))
+    rc = 0
+    if doc.get("replay_cmd"):
+        print("running the registered demonstration on the real code: %s" % doc["replay_cmd"])
+        p = subprocess.run(doc["replay_cmd"], shell=True, capture_output=True, text=True)
+        print((p.stdout + p.stderr)[-3000:])
+        if p.returncode != 0:
+            print("demonstration FAILS on the current tree (failing input reproduced)")
+            rc = 1
+        else:
+            print("demonstration passes on the current tree")
+    unit = doc.get("unit") or ""
+    if unit.startswith("scan"):
+        env = dict(os.environ, VERIF_NO_REPLAY="1", VERIF_EVIDENCE_DIR="/tmp/verif-replay-evidence")
+    else:
+        env = dict(os.environ, VERIF_NO_REPLAY="1", VERIF_ONLY_UNIT=unit, VERIF_EVIDENCE_DIR="/tmp/verif-replay-evidence")
+    p = subprocess.run([sys.executable, os.path.abspath(__file__), doc["property"]], capture_output=True, text=True, env=env)
+    want = os.path.basename(args[0])
+    still = [l for l in p.stdout.split("\n") if l.startswith("VIOLATION") and want in l]
+    known = [l for l in p.stdout.split("\n") if l.startswith("KNOWN-FINDING")]
+    if still:
+        print("re-verification on the current tree: the obligation STILL FAILS")
+        print(still[0])
+        return 1
+    if p.returncode == 2:
+        print("re-verification on the current tree: undecided\n" + "\n".join(l for l in p.stdout.split("\n") if "UNDECIDED" in l)[:600])
+        return rc or 2
+    print("re-verification on the current tree: the obligation is discharged" + (" (or is a listed known finding)" if known else ""))
+    return rc
+
+
 def main():
     args = sys.argv[1:]
     if not args:
         print(__doc__)
         return 2
+    if args[0] == "--replay":
+        return replay_main(args[1:])
     prop = args[0]
     tier = os.environ.get("VERIF_TIER", "quick")
     if "--tier" in args:
@@ -301,6 +348,8 @@ def main():
     os.makedirs(BUILD, exist_ok=True)
     idx = unit_index()
     units = [n for n, v in idx.items() if prop in v["serves"] and (tier == "thorough" or v["tier"] == "A")]
+    if os.environ.get("VERIF_ONLY_UNIT"):
+        units = [n for n in units if n == os.environ["VERIF_ONLY_UNIT"]]
     if not units:
         log("no unit serves %s" % prop)
         return 2
